@@ -64,6 +64,7 @@ func main() {
 	res := NewResult(*prop, *tier, *seed)
 	t0 := time.Now()
 	run(res, d, NewRng(*seed), *tier)
+	verifyRetained(res, *prop)
 	res.Notes = append(res.Notes, fmt.Sprintf("harness wall %.1fs", time.Since(t0).Seconds()))
 	if *out != "" {
 		res.Write(*out)
